@@ -237,4 +237,139 @@ theorem schedule_nonjitter (b : BackoffState) (rs : List Num) (n : Nat) (hj : b.
   intro i _
   rw [interval_nonjitter _ _ _ (by rw [afterCalls_kind]; exact hj)]
 
+/-! ### no interval of the schedule is negative (what `time.sleep` requires) -/
+
+theorem baseInterval_jrc (b : BackoffState) (n : Nat) : (baseInterval b n).2.jrc = b.jrc := by
+  unfold baseInterval fixedCall
+  cases b.kind <;> simp only [] <;> first | rfl | (split <;> rfl)
+
+theorem afterCalls_jrc (b : BackoffState) (i : Nat) : (afterCalls b i).jrc = b.jrc := by
+  induction i with
+  | zero => rfl
+  | succ i ih => rw [afterCalls, baseInterval_jrc, ih]
+
+theorem lastOf_mem (x : Num) (xs : List Num) : lastOf x xs ∈ x :: xs := by
+  induction xs generalizing x with
+  | nil => exact List.mem_cons_self ..
+  | cons y ys ih => rw [lastOf]; exact List.mem_cons_of_mem _ (ih y)
+
+theorem listEntry_mem (x : Num) (xs : List Num) (i : Nat) : listEntry (x :: xs) i ∈ x :: xs := by
+  by_cases h : i < (x :: xs).length
+  · rw [listEntry_lt _ _ h]; exact List.getElem_mem h
+  · rw [listEntry_ge x xs i (Nat.le_of_not_lt h)]; exact lastOf_mem x xs
+
+/-- one call: a non-negative un-jittered duration stays non-negative under jitter with `0 ≤ jrc` and a
+    fraction in `[0, 1]` (an exhausted script gives the fraction 0). -/
+theorem interval_n_nonneg (b : BackoffState) (n : Nat) (rs : List Num)
+    (hd : 0 ≤ (baseInterval b n).1.n)
+    (hj : b.kind.isJitter = true → 0 ≤ b.jrc.n ∧ ∀ r ∈ rs, 0 ≤ r.toRat ∧ r.toRat ≤ 1) :
+    0 ≤ (interval b n rs).1.n := by
+  by_cases hk : b.kind.isJitter = true
+  · obtain ⟨hj0, hr⟩ := hj hk
+    cases rs with
+    | nil =>
+      have : interval b n [] = (randomize b.jrc (baseInterval b n).1 numZero, (baseInterval b n).2, []) := by
+        unfold interval; simp [hk]
+      rw [this]
+      exact randomize_n_nonneg _ _ _ hj0 hd (by rw [Num.toRat_zero]) (by rw [Num.toRat_zero]; exact zero_le_one)
+    | cons r rest =>
+      rw [interval_jitter b n r rest hk]
+      obtain ⟨h0, h1⟩ := hr r (List.mem_cons_self ..)
+      exact randomize_n_nonneg _ _ _ hj0 hd h0 h1
+  · rw [interval_nonjitter b n rs (by simpa using hk)]; exact hd
+
+/-- the whole schedule: if every un-jittered (capped) duration is non-negative, and - for a jitter
+    strategy - `0 ≤ jrc` and every scripted fraction is in `[0, 1]`, then every interval is non-negative. -/
+theorem schedule_n_nonneg_of_base (bo : BackoffState) (rs : List Num)
+    (hbase : ∀ i, 0 ≤ (baseInterval (afterCalls bo i) (i + 1)).1.n)
+    (hj : bo.kind.isJitter = true → 0 ≤ bo.jrc.n ∧ ∀ r ∈ rs, 0 ≤ r.toRat ∧ r.toRat ≤ 1) :
+    ∀ i, 0 ≤ (interval (stateAfter bo rs 1 i) (i + 1) (rndAfter bo rs 1 i)).1.n := by
+  intro i
+  rw [stateAfter_eq_afterCalls, rndAfter_eq]
+  apply interval_n_nonneg _ _ _ (hbase i)
+  rw [afterCalls_kind, afterCalls_jrc]
+  intro hk
+  obtain ⟨hj0, hr⟩ := hj hk
+  refine ⟨hj0, ?_⟩
+  rw [if_pos hk]
+  intro r hr'
+  exact hr r (List.mem_of_mem_drop hr')
+
+theorem mkBackoff_kind (kind : BackoffKind) (s : Num) (sl : Option (List Num)) (ms : Option Num) (jrc base : Num) :
+    (mkBackoff kind s sl ms jrc base).kind = kind ∧ (mkBackoff kind s sl ms jrc base).jrc = jrc := by
+  unfold mkBackoff; split <;> exact ⟨rfl, rfl⟩
+
+/-- **fixed / jitter with a number**: `0 ≤ sleep`, `0 ≤ sleepMax` (if given), and for jitter `0 ≤ jrc` and
+    fractions in `[0, 1]` ⇒ no interval is negative. -/
+theorem schedule_n_nonneg_fixed_scalar (kind : BackoffKind) (s : Num) (ms : Option Num) (jrc base : Num)
+    (rs : List Num) (hk : kind = .fixed ∨ kind = .jitter)
+    (hs : 0 ≤ s.n) (hm : ∀ m, ms = some m → 0 ≤ m.n)
+    (hj : kind = .jitter → 0 ≤ jrc.n ∧ ∀ r ∈ rs, 0 ≤ r.toRat ∧ r.toRat ≤ 1) :
+    ∀ i, 0 ≤ (interval (stateAfter (mkBackoff kind s none ms jrc base) rs 1 i) (i + 1)
+      (rndAfter (mkBackoff kind s none ms jrc base) rs 1 i)).1.n := by
+  apply schedule_n_nonneg_of_base
+  · intro i
+    rw [fixed_scalar_nth kind s ms jrc base hk i (i + 1)]
+    exact capSleep_n_nonneg ms s hs hm
+  · rw [(mkBackoff_kind kind s none ms jrc base).1, (mkBackoff_kind kind s none ms jrc base).2]
+    intro hjk
+    apply hj
+    rcases hk with h | h <;> subst h
+    · cases hjk
+    · rfl
+
+/-- **fixed / jitter with a list**: every entry `≥ 0`, … ⇒ no interval is negative. -/
+theorem schedule_n_nonneg_fixed_list (kind : BackoffKind) (s x : Num) (xs : List Num) (ms : Option Num)
+    (jrc base : Num) (rs : List Num) (hk : kind = .fixed ∨ kind = .jitter)
+    (hl : ∀ y ∈ x :: xs, 0 ≤ y.n) (hm : ∀ m, ms = some m → 0 ≤ m.n)
+    (hj : kind = .jitter → 0 ≤ jrc.n ∧ ∀ r ∈ rs, 0 ≤ r.toRat ∧ r.toRat ≤ 1) :
+    ∀ i, 0 ≤ (interval (stateAfter (mkBackoff kind s (some (x :: xs)) ms jrc base) rs 1 i) (i + 1)
+      (rndAfter (mkBackoff kind s (some (x :: xs)) ms jrc base) rs 1 i)).1.n := by
+  apply schedule_n_nonneg_of_base
+  · intro i
+    rw [fixed_list_nth kind s x xs ms jrc base hk i]
+    exact capSleep_n_nonneg ms _ (hl _ (listEntry_mem x xs i)) hm
+  · rw [(mkBackoff_kind kind s _ ms jrc base).1, (mkBackoff_kind kind s _ ms jrc base).2]
+    intro hjk
+    apply hj
+    rcases hk with h | h <;> subst h
+    · cases hjk
+    · rfl
+
+/-- **linear / linearjitter**: `0 ≤ sleep`, … ⇒ no interval is negative. -/
+theorem schedule_n_nonneg_linear (kind : BackoffKind) (s : Num) (ms : Option Num) (jrc base : Num)
+    (rs : List Num) (hk : kind = .linear ∨ kind = .linearjitter)
+    (hs : 0 ≤ s.n) (hm : ∀ m, ms = some m → 0 ≤ m.n)
+    (hj : kind = .linearjitter → 0 ≤ jrc.n ∧ ∀ r ∈ rs, 0 ≤ r.toRat ∧ r.toRat ≤ 1) :
+    ∀ i, 0 ≤ (interval (stateAfter (mkBackoff kind s none ms jrc base) rs 1 i) (i + 1)
+      (rndAfter (mkBackoff kind s none ms jrc base) rs 1 i)).1.n := by
+  apply schedule_n_nonneg_of_base
+  · intro i
+    rw [afterCalls_scalar, baseInterval_linear _ _ (by rw [mkBackoff_scalar]; exact hk), mkBackoff_scalar]
+    exact capSleep_n_nonneg ms _ (Num.mul_n_nonneg _ _ (Num.ofNat_n_nonneg _) hs) hm
+  · rw [(mkBackoff_kind kind s none ms jrc base).1, (mkBackoff_kind kind s none ms jrc base).2]
+    intro hjk
+    apply hj
+    rcases hk with h | h <;> subst h
+    · cases hjk
+    · rfl
+
+/-- **exponential / exponentialjitter**: `0 ≤ sleep`, `0 ≤ base`, … ⇒ no interval is negative. -/
+theorem schedule_n_nonneg_exponential (kind : BackoffKind) (s : Num) (ms : Option Num) (jrc base : Num)
+    (rs : List Num) (hk : kind = .exponential ∨ kind = .exponentialjitter)
+    (hs : 0 ≤ s.n) (hb : 0 ≤ base.n) (hm : ∀ m, ms = some m → 0 ≤ m.n)
+    (hj : kind = .exponentialjitter → 0 ≤ jrc.n ∧ ∀ r ∈ rs, 0 ≤ r.toRat ∧ r.toRat ≤ 1) :
+    ∀ i, 0 ≤ (interval (stateAfter (mkBackoff kind s none ms jrc base) rs 1 i) (i + 1)
+      (rndAfter (mkBackoff kind s none ms jrc base) rs 1 i)).1.n := by
+  apply schedule_n_nonneg_of_base
+  · intro i
+    rw [afterCalls_scalar, baseInterval_exponential _ _ (by rw [mkBackoff_scalar]; exact hk), mkBackoff_scalar]
+    exact capSleep_n_nonneg ms _ (Num.mul_n_nonneg _ _ (Num.pow_n_nonneg _ hb _) hs) hm
+  · rw [(mkBackoff_kind kind s none ms jrc base).1, (mkBackoff_kind kind s none ms jrc base).2]
+    intro hjk
+    apply hj
+    rcases hk with h | h <;> subst h
+    · cases hjk
+    · rfl
+
 end Pypyr
